@@ -345,6 +345,8 @@ def _run_generation(model, leaves_only, pre, domkey, prefix):
             elif spec != ((), ()):
                 try:
                     v = sh.thaw(extra[0][1])
+                    if isinstance(v, dict) and v.get('__afm__'):
+                        v = v['default']
                 except ValueError:
                     v = extra[0][1]
                 if not _value_ok(v, spec):
